@@ -236,6 +236,26 @@ func emitC11Doc(out *Out, r *Rng) {
 			if ferr == nil && err == nil && fmt.Sprintf("%#v", fp.Parts()) != fmt.Sprintf("%#v", rp.Parts()) {
 				why = append(why, fmt.Sprintf("context-side path %v differs from document-side path %v for %s", fp.Parts(), rp.Parts(), dotted))
 			}
+			if ferr == nil {
+				// paths handed out belong to the caller: extending one of them (a position, a further member) must not change
+				// another one resolved for the same field, nor what a later resolution gives
+				a, e1 := opts.FieldPathFromContext(ctxBytes, rootType, dotted)
+				b, e2 := opts.FieldPathFromContext(ctxBytes, rootType, dotted)
+				if e1 == nil && e2 == nil {
+					orig := fmt.Sprintf("%#v", fp.Parts())
+					wantA := fmt.Sprintf("%#v", append(append([]interface{}{}, a.Parts()...), 1))
+					_ = a.Append(1)
+					_ = b.Append(2)
+					c, e3 := opts.FieldPathFromContext(ctxBytes, rootType, dotted)
+					if got := fmt.Sprintf("%#v", a.Parts()); got != wantA {
+						why = append(why, fmt.Sprintf("a path resolved for %s and extended by the caller changed when another path for the same field was extended: %v", dotted, a.Parts()))
+					} else if fmt.Sprintf("%#v", fp.Parts()) != orig {
+						why = append(why, fmt.Sprintf("the path resolved for %s changed after later results for the same field were extended by the caller: %v", dotted, fp.Parts()))
+					} else if e3 != nil || fmt.Sprintf("%#v", c.Parts()) != orig {
+						why = append(why, fmt.Sprintf("the context-side path of %s is %v after earlier results were extended by the caller, it was %s", dotted, c.Parts(), orig))
+					}
+				}
+			}
 			if ferr != nil && lp.ctxResolvable && (lp.lit != nil || lp.ref != "") {
 				why = append(why, fmt.Sprintf("field %s is reachable through property-scoped contexts only, but the context-side resolver fails: %v", dotted, ferr))
 			}
